@@ -321,7 +321,7 @@ class TableWaveform(Waveform):
                 else:
                     raise ValueError('Times are not increasing.')
 
-            if constant_v is not None and interp.constant_value((t, v), (next_t, next_v)) != constant_v:
+            if constant_v is not None and next_interp.constant_value((t, v), (next_t, next_v)) != constant_v:
                 constant_v = None
 
             if (previous_t != t or t != next_t) and (previous_v != v or v != next_v):
